@@ -90,6 +90,7 @@ class C20(core.Check):
             'of template placeholders, and classification of every vocabulary word (lower / upper case) over exactly its own '
             'span by the rule of its class, near-miss identifiers by none. distinct_nontrivial = distinct (target, vocabulary '
             'feature set) tuples; evaluations counts probe words classified.')
+    rule = rule + ' ' + 'A third of the runs generate into a directory that already holds an earlier generation; a zip member stored twice is a violation.'
     assumptions = ('the extracted patterns use only constructs common to Oniguruma, Sublime and Python re; a pattern Python cannot '
                    'compile makes that probe inconclusive, not violated',
                    'alternation is leftmost-first in all three engines')
